@@ -264,7 +264,9 @@ def loadModelOp (j : Json) : Except String Json := do
       | Option.none => throw s!"unknown field {id}"
     | _ => throw "bad field outcome"
   let missingErr (id : String) : Int := -1 - (s.fields.findIdx (·.id == id) : Nat)
-  let construct (args : List (Arg Int)) : Option (Binding Int × Binding Int) := (bindArgs s.sig args).toOption
+  let ctorRaises ← (fieldBool j "ctor_raises" <|> pure false)
+  let construct (args : List (Arg Int)) : Option (Binding Int × Binding Int) :=
+    if ctorRaises then Option.none else (bindArgs s.sig args).toOption
   let (out, calls) := loadModel fix trail missingErr s c (fun id => dflt.lookup id) extra construct frs
   let outJ := match out with
     | .ok (b, ex) => Json.mkObj [("r", "ok"), ("bound", encAssoc (s.params.filterMap fun p => (b.lookup p.name).map fun v => (p.name, v))),
